@@ -3,6 +3,7 @@ import Driver.SM
 import Driver.Beh
 import Driver.Pyg
 import Driver.Lit
+import Driver.Ssbs
 open Lean Drv
 
 /-- dispatch on the prefix of "op" -/
@@ -14,6 +15,7 @@ def dispatch (j : Json) : R Json := do
   | "beh" => BehD.handle op j
   | "pyg" => PygD.handle op j
   | "lit" => LitD.handle op j
+  | "ssbs" => SsbsD.handle op j
   | _ => throw s!"unknown op {op}"
 
 partial def loop (h : IO.FS.Stream) (out : IO.FS.Stream) : IO Unit := do
